@@ -39,6 +39,12 @@ class C:
             x, y, scale = a
             if isinstance(x, complex) or isinstance(y, complex):
                 return k == "eq" and abs(x - y) <= max(slack, 0.0) * (abs(x) + abs(y) + scale)
+            try:
+                if math.isinf(x) or math.isinf(y) or math.isnan(x) or math.isnan(y):
+                    # no tolerance arithmetic with non-finite values
+                    return (x == y) if k == "eq" else ((x <= y) if k == "le" else (x < y))
+            except TypeError:
+                pass
             s = slack * (abs(x) + abs(y) + scale)
             if k == "eq":
                 return abs(x - y) <= max(s, 0.0)
